@@ -1,7 +1,7 @@
 from common import WORLD_TB, WORLD_ASSUME, SCEN_RULE, gen_guards
 
 PROP = {
-    "suites": ["scn-fault", "scn-faultx", "scn-mixed", "c10-stage"],
+    "suites": ["scn-directed", "scn-fault", "scn-faultx", "scn-mixed", "c10-stage"],
     "lean_modules": ["Lc.Props.C10", "Lc.Props.C10Stage", "Lc.Props.C10Facts"],
     "generate": [gen_guards],
     "leanchecker": True,
